@@ -40,6 +40,9 @@ func pcAssigned(g *pcGen, info *types.Info, nodes ...ast.Node) []*types.Var {
 			if o == nil {
 				o = info.Defs[id]
 			}
+			if g != nil && g.tree != nil && o != nil && ast.Expr(id) != e && g.tree.heapPtr(g, o.Type()) {
+				return
+			}
 			if v, ok := pgLocal(o); ok && !seen[v] {
 				seen[v] = true
 				out = append(out, v)
@@ -99,8 +102,10 @@ func (c *pcCtx) lets(pre []string, body pgNode) pgNode {
 func (c *pcCtx) stmts(list []ast.Stmt, k pgNode) pgNode {
 	if c.liftTop {
 		c.liftTop = false
-		if n := c.liftTail(list, k); n != nil {
-			return n
+		if c.g.tree == nil { // (the tree functions are small: their continuations stay in line)
+			if n := c.liftTail(list, k); n != nil {
+				return n
+			}
 		}
 	}
 	for i := len(list) - 1; i >= 0; i-- {
@@ -111,6 +116,9 @@ func (c *pcCtx) stmts(list []ast.Stmt, k pgNode) pgNode {
 
 func (c *pcCtx) varType(v *types.Var) string {
 	t := c.typ(v.Type())
+	if c.boxed[v] {
+		return "Nat"
+	}
 	if c.owned[v] && strings.HasPrefix(t, "(Option ") {
 		return strings.TrimSuffix(strings.TrimPrefix(t, "(Option "), ")")
 	}
@@ -141,6 +149,14 @@ func (c *pcCtx) assignTo(lhs ast.Expr, v string, pre *[]string) {
 		if !ok || c.ctxObj[lv] {
 			pgFail("assignment to %s, which is not a local variable", x.Name)
 		}
+		if c.boxed[lv] {
+			if c.info.Defs[x] != nil {
+				*pre = append(*pre, "let "+c.name(lv)+" ← Boxed.new"+c.boxKind(lv)+" "+pcP(v))
+			} else {
+				*pre = append(*pre, "Boxed.set"+c.boxKind(lv)+" "+c.name(lv)+" "+pcP(v))
+			}
+			return
+		}
 		*pre = append(*pre, "let "+c.name(lv)+" : "+c.varType(lv)+" := "+v)
 		return
 	case *ast.SelectorExpr:
@@ -152,6 +168,13 @@ func (c *pcCtx) assignTo(lhs ast.Expr, v string, pre *[]string) {
 		fld := pgField(sel.Obj().Name())
 		if c.isCtxExpr(x.X) {
 			*pre = append(*pre, "Go.modify (fun s_ => { s_ with "+fld+" := "+v+" })")
+			return
+		}
+		if c.isHeapPtr(c.info.TypeOf(x.X)) {
+			p := pcP(c.atom(x.X, pre))
+			t := c.tmp()
+			*pre = append(*pre, "let "+t+" ← Go.load "+p)
+			*pre = append(*pre, "Go.store "+p+" { "+t+" with "+fld+" := "+v+" }")
 			return
 		}
 		if _, isPtr := c.info.TypeOf(x.X).Underlying().(*types.Pointer); isPtr && !c.isOwned(x.X) {
@@ -170,6 +193,8 @@ func (c *pcCtx) assignTo(lhs ast.Expr, v string, pre *[]string) {
 			*pre = append(*pre, "let "+t+" ← Go.setNth "+a+" "+i+" "+pcP(v))
 		case strings.HasPrefix(lt, "(Map "):
 			*pre = append(*pre, "let "+t+" ← Go.mapSet "+a+" "+i+" "+pcP(v))
+		case strings.HasPrefix(lt, "(SMap "):
+			*pre = append(*pre, "let "+t+" := Go.smapSet "+a+" "+i+" "+pcP(v))
 		default:
 			pgFail("assignment to %s", norm(lhs))
 		}
@@ -220,7 +245,7 @@ func (c *pcCtx) assign(lhs ast.Expr, rhs ast.Expr, op token.Token, define bool, 
 		}
 	}
 	want := c.info.TypeOf(lhs)
-	if id, ok := lhs.(*ast.Ident); ok && id.Name != "_" && !c.info.Types[rhs].IsNil() {
+	if id, ok := lhs.(*ast.Ident); ok && id.Name != "_" && !c.info.Types[rhs].IsNil() && !c.isBoxedIdent(id) {
 		have := c.info.TypeOf(rhs)
 		if !(types.IsInterface(want) && have != nil && !types.IsInterface(have)) {
 			p, code, mon := c.parts(rhs)
@@ -269,6 +294,9 @@ func (c *pcCtx) pattern(lhs []ast.Expr) string {
 var pcAsFn = map[string]string{"ast.NodeList": "Node.asNodeList", "ast.EmptyNode": "Node.asEmptyNode", "parsley.NonTerminalNode": "Node.asNonTerminalNode"}
 
 func (c *pcCtx) asFn(t types.Type, from types.Type) string {
+	if c.g.tree != nil {
+		return c.g.tree.asFn(c, t, from)
+	}
 	if lt, _ := c.g.leanType(from); lt != "Node" {
 		pgFail("type test on a value that is not a node")
 	}
@@ -355,6 +383,19 @@ func (c *pcCtx) stmt(s ast.Stmt, k pgNode) pgNode {
 		return c.stmts(x.List, k)
 	case *ast.ReturnStmt:
 		var pre, vals []string
+		if call, ok := x.Results[0:min(1, len(x.Results))], true; ok && c.g.tree != nil && len(x.Results) == 1 && c.resT != nil && c.resT.Len() > 1 {
+			// `return f(…)` with several results
+			if ce, ok := call[0].(*ast.CallExpr); ok {
+				p, code, mon := c.call(ce)
+				t := c.tmp()
+				if mon {
+					p = append(p, "let "+t+" ← "+code)
+				} else {
+					p = append(p, "let "+t+" := "+code)
+				}
+				return c.lets(p, c.retRaw(t))
+			}
+		}
 		for i, r := range x.Results {
 			var want types.Type
 			if c.resT != nil && i < c.resT.Len() {
@@ -379,6 +420,10 @@ func (c *pcCtx) stmt(s ast.Stmt, k pgNode) pgNode {
 				if len(vs.Values) == 0 {
 					o := c.info.Defs[id]
 					todo = append(todo, func(k pgNode) pgNode {
+						if c.boxed[o] {
+							c.typ(o.Type())
+							return &pgLet{"let " + c.name(o) + " ← Boxed.new" + c.boxKind(o) + " " + c.zero(o.Type()), k}
+						}
 						return &pgLet{"let " + c.name(o) + " : " + c.typ(o.Type()) + " := " + c.zero(o.Type()), k}
 					})
 				} else {
@@ -428,6 +473,9 @@ func (c *pcCtx) stmt(s ast.Stmt, k pgNode) pgNode {
 					names := strings.Split(strings.Trim(pat, "()"), ", ")
 					c.inoutCall(r, fn, recv, names, &pre)
 					return c.lets(pre, k)
+				}
+				if c.g.tree != nil && !c.plainPattern(x.Lhs) {
+					return c.tupleAssign(x, r, k)
 				}
 				p, code, mon := c.call(r)
 				if mon {
@@ -502,6 +550,10 @@ func (c *pcCtx) stmt(s ast.Stmt, k pgNode) pgNode {
 		return c.typeSwitch(x, k)
 	case *ast.RangeStmt:
 		return c.rangeLoop(x, k)
+	case *ast.ForStmt:
+		if c.g.tree != nil {
+			return c.forLoop(x, k)
+		}
 	case *ast.BranchStmt:
 		if x.Label != nil || len(c.loops) == 0 || (x.Tok != token.BREAK && x.Tok != token.CONTINUE) {
 			pgFail("branch statement %s", norm(x))
@@ -759,7 +811,7 @@ func (c *pcCtx) rangeLoop(x *ast.RangeStmt, k pgNode) pgNode {
 	body := sub.stmts(x.Body.List, again)
 	var lines []string
 	pcPrint(body, "    ", &lines)
-	hdr := "def " + name + " (W : World Context)"
+	hdr := "def " + name + " " + c.g.worldB()
 	for _, v := range fixed {
 		hdr += " (" + v.name + " : " + v.typ + ")"
 	}
@@ -918,7 +970,7 @@ func (c *pcCtx) liftTail(list []ast.Stmt, k pgNode) pgNode {
 	body := sub.stmts(rest, k)
 	var lines []string
 	pcPrint(body, "  ", &lines)
-	hdr := "/-- " + c.fn.pkg.tpkg.Name() + "." + c.fn.key + ": what follows its last top-level join point -/\ndef " + name + " (W : World Context)"
+	hdr := "/-- " + c.fn.pkg.tpkg.Name() + "." + c.fn.key + ": what follows its last top-level join point -/\ndef " + name + " " + c.g.worldB()
 	call := []string{name, "W"}
 	for _, v := range vars {
 		hdr += " (" + v.name + " : " + v.typ + ")"
